@@ -311,7 +311,9 @@ def gen_learn(rng, widen=False, kc04a=False, kc04b=False):
     calls = []
     for c in range(ncalls):
         hi = max(1, (24 // ncalls)) * n_envs
-        calls.append({"total": rng.randint(1, hi), "reset": True if c == 0 and rng.chance(0.5) else rng.chance(0.45)})
+        reset = True if c == 0 and rng.chance(0.5) else rng.chance(0.45)
+        # `set_env(env)` (force_reset) before a continuing learn(): the environment is reset, the counters are not
+        calls.append({"total": rng.randint(1, hi), "reset": reset, "set_env": bool(c > 0 and not reset and rng.chance(0.35))})
     cap = 256
     if rng.chance(0.15):
         cap = rng.randint(2, 9)
@@ -816,6 +818,8 @@ def run_learn(ctx, case):
         CLOCK["phase"], CLOCK["step"] = "setup", len(steps)
         start = len(steps)
         vstart = len(vn_snaps)
+        if call.get("set_env"):
+            model.set_env(model.get_env())
         model.learn(total_timesteps=call["total"], reset_num_timesteps=call["reset"])
         call_info.append({"start": start, "end": len(steps), "num_timesteps": int(model.num_timesteps), "vstart": vstart,
                           "vend": len(vn_snaps)})
@@ -1059,7 +1063,7 @@ def learn_op(case, r):
         step_nz = [s[1] for s in snaps if s[0] == "step"]
         rtags = [per_env[i][ci]["reset"] for i in range(n)]
         dummy = {"stats": [None] * d, "clip_obs": F(1), "rew_sd": None, "clip_rew": F(1)}
-        c = {"reset": bool(call["reset"]), "total": call["total"],
+        c = {"reset": bool(call["reset"]), "set_env": bool(call.get("set_env")), "total": call["total"],
              "reset_obs": [vecj(t) if t is not None else [ratj(F(-7))] * d for t in rtags],
              "reset_nz": nzj(reset_nz if reset_nz is not None else dummy) if vnc else None, "steps": []}
         for k in range(info["start"], info["end"]):
